@@ -99,6 +99,11 @@ class Index:
 
     __hash__ = None
 
+    def __getattr__(self, name):
+        if name.startswith('_'):
+            raise AttributeError(name)
+        raise ModelGap("Index.%s is not modelled" % name)
+
     def __repr__(self):
         return "Index(%r)" % (self._labels,)
 
@@ -131,6 +136,13 @@ class Series:
             self._kind_hint = data.kind
         elif isinstance(data, Series):
             self._kind_hint = data._kind_hint
+
+    def __getattr__(self, name):
+        if name.startswith('_'):
+            raise AttributeError(name)
+        if name in ('ix', 'as_matrix', 'append', 'iteritems', 'real_if_close'):
+            raise AttributeError("'Series' object has no attribute %r" % name)
+        raise ModelGap("Series.%s is not modelled" % name)
 
     # --- basics
     def __len__(self):
@@ -507,6 +519,31 @@ class _Columns:
         return list(self._names)
 
     to_list = tolist
+
+    def intersection(self, other, sort=False):
+        other = list(other)
+        out = []
+        for n in self._names:
+            if n in other and n not in out:
+                out.append(n)
+        return _Columns(sorted(out) if sort else out)
+
+    def difference(self, other, sort=None):
+        other = list(other)
+        out = []
+        for n in self._names:
+            if n not in other and n not in out:
+                out.append(n)
+        return _Columns(out if sort is False else sorted(out))
+
+    def isin(self, other):
+        other = list(other)
+        return np.ndarray._from_flat([n in other for n in self._names], (len(self._names),), 'b')
+
+    def __getattr__(self, name):
+        if name.startswith('__'):
+            raise AttributeError(name)
+        raise ModelGap("columns.%s is not modelled" % name)
 
     def __eq__(self, o):
         return list(self._names) == list(o)
